@@ -4,6 +4,8 @@
 -/
 import KiraModel.Exec.SuiteUnits
 import KiraModel.Exec.SuiteParam
+import KiraModel.Exec.SuiteChan
+import KiraModel.Exec.SuiteStorage
 
 open K.Exec
 
@@ -20,6 +22,8 @@ def suiteOf (name : String) : Option Suite :=
   match name with
   | "units" => some (statelessSuite unitsStep)
   | "param" => some { σ := ParamState, init := {}, step := paramStep }
+  | "chan" => some { σ := ChanState, init := {}, step := withSeq chanStep }
+  | "storage" => some { σ := StoState, init := {}, step := withSeq storageStep }
   | _ => none
 
 def tokens (line : String) : List String :=
